@@ -103,3 +103,25 @@ pub fn run_stitch(sc: &Value) -> Value {
         Err(_) => json!({"panic": true}),
     }
 }
+
+
+/// scenario: {bands: [{band, state: open|closed, hunks: []}]} -> ids chosen by LatestClosed and Latest
+pub fn run_select(sc: &Value) -> Value {
+    let tmp = tempfile::tempdir().unwrap();
+    write_archive(tmp.path(), &sc["bands"]);
+    std::fs::create_dir_all(tmp.path().join("unrelated-dir")).unwrap();
+    let path = tmp.path().to_owned();
+    let r = catch_unwind(AssertUnwindSafe(|| {
+        let rt = tokio::runtime::Builder::new_current_thread().enable_all().build().unwrap();
+        rt.block_on(async {
+            let archive = Archive::open_path(&path).await.unwrap();
+            let f = |r: Result<BandId>| match r {
+                Ok(b) => json!(b.to_string()),
+                Err(e) => json!(format!("Err:{e:?}")),
+            };
+            json!({"LatestClosed": f(archive.resolve_band_id(BandSelectionPolicy::LatestClosed).await),
+                   "Latest": f(archive.resolve_band_id(BandSelectionPolicy::Latest).await)})
+        })
+    }));
+    r.unwrap_or_else(|_| json!({"panic": true}))
+}
